@@ -165,7 +165,13 @@ struct Runner
 			break;
 		case 4: q.processOne(); break;
 		default:
-			if(sc.allowClear && rng.chance(1, 6)) { q.clearEvents(); cleared.fetch_add(1, std::memory_order_relaxed); }
+			if(sc.allowClear && rng.chance(1, 6)) {
+				Obs o; o.kind = 2; o.tc = tick();
+				q.clearEvents();
+				o.tr = tick();
+				gClears[tls().tid % MAXTHREADS].push_back(o);
+				cleared.fetch_add(1, std::memory_order_relaxed);
+			}
 			else q.emptyQueue();
 			break;
 		}
@@ -286,7 +292,7 @@ static void runScenario(uint64_t caseNo, Rng & rng, const char * cfgName, bool o
 	sc.selective = rng.chance(1, 2);
 	for(int c = 0; c < 8; ++c) {
 		for(int i = 0; i < 6; ++i) sc.consumerOps[c][i] = rng.chance(1, 2) ? (int)rng.below(5) : 0;
-		if(observerMode) { sc.consumerOps[c][2] = 0; sc.consumerOps[c][3] = 0; sc.consumerOps[c][5] = sc.allowClear ? 1 : 0; }
+		if(observerMode) { sc.consumerOps[c][5] = sc.allowClear ? 1 : 0; } // peek adds nothing to the emptiness oracle
 		if(sc.consumerOps[c][0] + sc.consumerOps[c][1] + sc.consumerOps[c][2] + sc.consumerOps[c][4] == 0) sc.consumerOps[c][(int)rng.below(2)] = 2; // must be able to drain
 	}
 	pickTargetedWindow(rng, sc);
@@ -404,6 +410,7 @@ static void runScenario(uint64_t caseNo, Rng & rng, const char * cfgName, bool o
 			std::vector<uint64_t> sufMin(clears.size() + 1, ~0ULL);
 			for(size_t i = clears.size(); i-- > 0; ) sufMin[i] = std::min(sufMin[i + 1], clears[i].second);
 			std::vector<std::pair<uint64_t, uint64_t> > ev; // (enqRet, doneAt)
+			std::vector<int> evId;
 			for(int p = 0; p < sc.producers; ++p) for(int i = 0; i < sc.perProducer; ++i) {
 				const int eid = p * 1000 + i;
 				const uint64_t er = S->enqRet[eid].load(std::memory_order_relaxed);
@@ -416,11 +423,20 @@ static void runScenario(uint64_t caseNo, Rng & rng, const char * cfgName, bool o
 					done = sufMin[lo];
 				}
 				ev.push_back(std::make_pair(er, done));
+				evId.push_back(eid);
 			}
-			std::sort(ev.begin(), ev.end());
+			{ // sort both by enqRet
+				std::vector<size_t> idx(ev.size());
+				for(size_t i = 0; i < idx.size(); ++i) idx[i] = i;
+				std::sort(idx.begin(), idx.end(), [&ev](size_t a, size_t b) { return ev[a] < ev[b]; });
+				std::vector<std::pair<uint64_t, uint64_t> > ev2; std::vector<int> id2;
+				for(size_t i = 0; i < idx.size(); ++i) { ev2.push_back(ev[idx[i]]); id2.push_back(evId[idx[i]]); }
+				ev.swap(ev2); evId.swap(id2);
+			}
 			std::vector<uint64_t> prefMax(ev.size());
-			uint64_t mx = 0;
-			for(size_t i = 0; i < ev.size(); ++i) { if(ev[i].second > mx) mx = ev[i].second; prefMax[i] = mx; }
+			std::vector<int> prefMaxId(ev.size());
+			uint64_t mx = 0; int mxId = -1;
+			for(size_t i = 0; i < ev.size(); ++i) { if(ev[i].second > mx) { mx = ev[i].second; mxId = evId[i]; } prefMax[i] = mx; prefMaxId[i] = mxId; }
 			uint64_t nobs = 0, interesting = 0;
 			for(int t = 0; t < MAXTHREADS; ++t) for(size_t i = 0; i < gObs[t].size(); ++i) {
 				const Obs & o = gObs[t][i];
@@ -432,7 +448,7 @@ static void runScenario(uint64_t caseNo, Rng & rng, const char * cfgName, bool o
 				++interesting;
 				if(prefMax[lo - 1] > o.tr) {
 					violation(o.kind == 0 ? "emptyQueue:true-while-event-pending-or-in-dispatch" : "waitFor:timed-out-while-event-pending-or-in-dispatch",
-						"observation [" + unum(o.tc) + "," + unum(o.tr) + "] reported empty although an event enqueued before it was not fully consumed until tick " + unum(prefMax[lo - 1]));
+						"observation [" + unum(o.tc) + "," + unum(o.tr) + "] reported empty although event " + num(prefMaxId[lo - 1]) + " (state " + num(S->state[prefMaxId[lo - 1]].load()) + ", enqueue returned at " + unum(S->enqRet[prefMaxId[lo - 1]].load()) + ") enqueued before it was not fully consumed until tick " + unum(prefMax[lo - 1]));
 					break;
 				}
 			}
@@ -463,8 +479,8 @@ static void runCase(uint64_t caseNo, Rng & rng)
 	const bool obs = ctx().mode == "c11";
 	long long only = ctx().optInt("cfg", -1);
 	const int cfg = only >= 0 ? (int)only : (int)(caseNo % 4);
-	if(cfg == 3 && ! obs) runScenario<HQ>(caseNo, rng, "HeterEventQueue MonMutex (two prototypes)", false);
-	else if(cfg == 0 || cfg == 3) runScenario<Q0>(caseNo, rng, "EventQueue MonMutex(std::mutex)", obs);
+	if(cfg == 3) runScenario<HQ>(caseNo, rng, "HeterEventQueue MonMutex (two prototypes)", obs);
+	else if(cfg == 0) runScenario<Q0>(caseNo, rng, "EventQueue MonMutex(std::mutex)", obs);
 	else if(cfg == 1) runScenario<Q1>(caseNo, rng, "EventQueue MonMutex(SpinLock)", obs);
 	else runScenario<Q2>(caseNo, rng, "EventQueue OrderedQueueList MonMutex", obs);
 }
